@@ -254,6 +254,13 @@ func sext(e expr.Expr, signBit uint8, w expr.Width) expr.Expr {
 	return exprtools.SignExtend(e, expr.ConstFromUint(signBit), w)
 }
 
+// jumpTarget returns target address of jalr instruction: the sum of rs1 and the
+// immediate with the least significant bit cleared.
+func jumpTarget(i instruction, w expr.Width) expr.Expr {
+	sum := regImmOp(binOpFunc(expr.Add), immTypeI, i, w)
+	return exprtools.BitAnd(sum, expr.NewConstInt(int8(-2), w), w)
+}
+
 func sext32To64(e expr.Expr) expr.Expr { return sext(e, 31, expr.Width64) }
 
 func memLoad(addr expr.Expr, w expr.Width) expr.Expr {
